@@ -341,6 +341,28 @@ TGraph ==
          /\ \A n \in nodes : n <= Max2(E.max, 1)
   /\ (E.hasprev = 1 => GraphStep)
 
+\* Key-level state of a quantised vector store (Quant.tla): which node ids have a 'v' / a 'q' key in the index
+\* bucket, and whether the quantiser's trained state is stored.  Every live point with the field can be read
+\* from the bucket alone and nothing else can; once trained every point has its quantised form, before that
+\* none has; a product-quantised store is enumerated by 'v'; training happens when, and only when, the store
+\* has reached the trigger at the end of some write (the entry node of a graph index counts) and is never undone.
+CountW(P, p) == Cardinality({j \in DOMAIN P : HasIx(S, P[j], p)})
+TVecKeys ==
+  /\ IsEvent("VecKeys") /\ Obs
+  /\ LET Wn   == {nodeOf[i] : i \in {j \in DOMAIN pts : HasIx(S, pts[j], E.p)}}
+         V    == AsSet(E.v)
+         Q    == AsSet(E.q)
+         base == IF E.entry = 1 THEN {1} ELSE {}
+         due  == \E v \in 1..Len(vers) : CountW(vers[v], E.p) + E.entry >= E.trigger
+         tr   == E.trained = 1 \/ E.fixed = 1
+     IN  /\ NoDup(E.v) /\ NoDup(E.q)
+         /\ V \cup Q \subseteq Wn \cup base
+         /\ Wn \subseteq V \cup Q
+         /\ (tr /\ Wn # {}) => Wn \subseteq Q
+         /\ ~tr => (Q = {} /\ Wn \subseteq V)
+         /\ E.kind = "product" => Wn \subseteq V
+         /\ E.fixed = 0 => (E.trained = 1 <=> due)
+
 \* What-if trials (C07): the batch is tried on a copy of the database under an
 \* injected fault / kill; Fork saves the model state, Restore brings it back.
 TFork ==
@@ -419,7 +441,7 @@ TQuiet == IsEvent("Quiet") /\ Obs
 
 TraceNext ==
   \/ TReset \/ TFault \/ TInsert \/ TInsertRace \/ TWriteRace \/ TUpdate \/ TDelete \/ TFork \/ TRestore \/ TCrash
-  \/ TCount \/ TGet \/ TFilter \/ TFlat \/ TVamana \/ TVamanaPair \/ TFlatPair \/ TCSearch \/ TErrKnown \/ TErrKnownStale \/ TText \/ TTextRepeat \/ TGraph \/ TQuiet
+  \/ TCount \/ TGet \/ TFilter \/ TFlat \/ TVamana \/ TVamanaPair \/ TFlatPair \/ TCSearch \/ TErrKnown \/ TErrKnownStale \/ TText \/ TTextRepeat \/ TGraph \/ TVecKeys \/ TQuiet
 
 TraceSpec == TraceInit /\ [][TraceNext]_vars
 
